@@ -13,6 +13,16 @@ def main():
     if a.what == "replay":
         from vc import e3bridge
         sys.exit(e3bridge.rerun_replay(a.arg))
+    if a.what == "crosscheck":
+        from vc import crosscheck
+        import json
+        rep, bad, limits = crosscheck.main(per_func=25 if a.tier == "thorough" else 10, seed=seed)
+        os.makedirs("evidence", exist_ok=True)
+        json.dump(dict(report=rep, disagreements=bad, functions_with_tool_limit=limits), open("evidence/_crosscheck.json", "w"), indent=1)
+        for k, v in rep.items():
+            print("%-28s agree %d/%d%s" % (k, v["agree"], v["samples"], ("  TOOL LIMIT: " + v["tool_limit"]) if v["tool_limit"] else ""))
+        print("ENGINE-CROSS-CHECK: %d disagreement(s) with CPython" % bad)
+        sys.exit(3 if bad else 0)
     from vc import runner
     try:
         rc = runner.run_check(a.what, a.tier, seed)
